@@ -72,6 +72,8 @@ pub fn start_candidates(log: &[Event], head: bool) -> Vec<usize> {
                 }
             }
             EvKind::Read if e.file == 0 => break,
+            // positioning that happens after construction is too late: bytes appended from here on are new
+            EvKind::Constructed => break,
             _ => {}
         }
     }
